@@ -21,7 +21,9 @@ fn classify(p: &Pair) -> Expect {
     let chain: Vec<u16> = match i {
         RI::Ld { off, .. } | RI::St { off, .. } => vec![npc.wrapping_add(off as u16)],
         RI::Ldr { base, off, .. } | RI::Str { base, off, .. } => vec![r(base).wrapping_add(off as u16)],
-        RI::Ldi { off, .. } | RI::Sti { off, .. } => { let a = npc.wrapping_add(off as u16); if user(a) { vec![a, p.sim.mem[a].get()] } else { vec![a] } }
+        RI::Ldi { off, .. } | RI::Sti { off, .. } => { let a = npc.wrapping_add(off as u16);
+            // strict mode: a pointer cell that was never written has no known value, so there is no second address to judge
+            if user(a) && p.sim.flags.strict && !p.sim.mem[a].is_init() { vec![a] } else if user(a) { vec![a, p.sim.mem[a].get()] } else { vec![a] } }
         RI::Rti => return Expect::Priv,
         _ => vec![],
     };
@@ -36,17 +38,17 @@ fn check_step(p: &mut Pair, what: &str) -> Result<Expect, (String, String)> {
     let real = p.rf.real_traps;
     let w = if pc0 < 0xFE00 { p.sim.mem[pc0].get() } else { 0 };
     let target_before = match exp { Expect::Acv { target } if target < 0xFE00 => Some((target, p.sim.mem[target])), _ => None };
-    let kb0: Vec<u8> = p.kb.get_buffer().read().unwrap().iter().copied().collect();
-    let d0: Vec<u8> = p.disp.get_buffer().read().unwrap().clone();
-    let rec0 = p.rec.log.lock().unwrap().len();
+    let kb0: Vec<u8> = p.kb.get_buffer().read().unwrap_or_else(|e| e.into_inner()).iter().copied().collect();
+    let d0: Vec<u8> = p.disp.get_buffer().read().unwrap_or_else(|e| e.into_inner()).clone();
+    let rec0 = p.rec.log.lock().unwrap_or_else(|e| e.into_inner()).len();
     let ssp0 = p.saved_sp();
     let regs0: Vec<u16> = (0..8).map(|i| p.sim.reg_file[reg(i)].get()).collect();
     p.sim.observer.clear();
     let res = match catch(|| p.sim.step_in()) { Ok(r) => r, Err(m) => return Err((format!("panic:{}", panic_site(&m)), format!("{what}: {m}"))) };
     let ctx = format!("{what}: word x{w:04X} at pc x{pc0:04X} (real_traps={real}), expectation {exp:?}");
-    let kb1: Vec<u8> = p.kb.get_buffer().read().unwrap().iter().copied().collect();
-    let d1: Vec<u8> = p.disp.get_buffer().read().unwrap().clone();
-    let rec1 = p.rec.log.lock().unwrap().len();
+    let kb1: Vec<u8> = p.kb.get_buffer().read().unwrap_or_else(|e| e.into_inner()).iter().copied().collect();
+    let d1: Vec<u8> = p.disp.get_buffer().read().unwrap_or_else(|e| e.into_inner()).clone();
+    let rec1 = p.rec.log.lock().unwrap_or_else(|e| e.into_inner()).len();
     match exp {
         Expect::Clean => {
             match &res { Err(SimErr::AccessViolation) | Err(SimErr::PrivilegeViolation) => return Err(("spurious-violation".into(), format!("{ctx}: every address of the step is in user space but it reported {res:?}"))), _ => {} }
@@ -132,8 +134,12 @@ fn targeted_at(form: u64, t: u16, real: bool) -> Option<(Machine, u32, String)> 
     Some((m, steps, format!("{name} aimed at x{t:04X}")))
 }
 
-fn run_targeted(form: u64, ti: u64, real: bool) -> Result<Option<bool>, (String, String)> {
-    let Some((m, steps, what)) = targeted(form, ti, real) else { return Ok(None) };
+fn run_targeted(form: u64, ti: u64, real: bool) -> Result<Option<bool>, (String, String)> { run_targeted_s(form, ti, real, false) }
+/// `strict`: strict mode on and the data register R0 never written (the machine's uninitialised fill): what strict mode objects to
+/// must not take precedence over, or replace, the access-control outcome
+fn run_targeted_s(form: u64, ti: u64, real: bool, strict: bool) -> Result<Option<bool>, (String, String)> {
+    let Some((mut m, steps, mut what)) = targeted(form, ti, real) else { return Ok(None) };
+    if strict { m.strict = true; m.uninit_regs = 1; what += " (strict mode, R0 uninitialised)"; }
     let mut p = build(&m);
     let mut violated = false;
     for _ in 0..steps {
@@ -206,13 +212,14 @@ fn run_sweep(ci: u64, w: u16) -> Result<Expect, (String, String)> {
 fn user_contexts(thorough: bool) -> Vec<u64> { (0..context_count(thorough)).filter(|i| { let m = context(*i); m.psr >> 15 == 1 && !m.ignore_priv }).collect() }
 
 pub fn run(ctx: &Ctx) -> Report {
-    let mut rep = Report::new("user mode, privilege checks on, real and virtual traps: (1) targeted: 15 access/transfer forms (LDR, STR, LDI/STI second hop, LD/ST/LDI/STI first hop by PC-relative reach, JMP/JSRR/JSR/BR-taken followed by the fetch, PC preset, RTI, PUTS with a pointer argument) each aimed at every address of the 18-address boundary set {x0000,x0001,x01FF,x0200,x2FFE,x2FFF|x3000,x3001,xFDFE,xFDFF|xFE00,xFE02,xFE04,xFE06,xFE10,xFFFC,xFFFE,xFFFF}; (2) every 16-bit word in every user-mode single-step context of the C08 grid; (3) history: the same 15 forms aimed at every supervisor-space address that the OS executed or accessed while serving a user-mode OUT / PUTS / GETC call made a moment earlier on the same simulator (non-initial states: anything the simulator remembers about an address from supervisor-mode use must not leak into user mode). Oracle: an independent attempt classifier computed from the pre-state (fetch address, effective addresses in ISA order, RTI): an attempt outside x3000-xFDFF must be reported (virtual) or vectored with supervisor PSR, R6 = SSP-2, saved user PSR (real), leave the target word, keyboard queue, display buffer and recording-device log unchanged and the observer inside user space apart from the vector entry and two stack slots; steps whose addresses are all inside must not report a violation. non-trivial = steps classified as attempts");
-    let r = sweep(ctx, 15 * 18 * 2, 4, |k, acc| {
+    let mut rep = Report::new("user mode, privilege checks on, real and virtual traps: (1) targeted (each also in strict mode with the data register never written, where strict-mode objections must not replace the access-control outcome): 15 access/transfer forms (LDR, STR, LDI/STI second hop, LD/ST/LDI/STI first hop by PC-relative reach, JMP/JSRR/JSR/BR-taken followed by the fetch, PC preset, RTI, PUTS with a pointer argument) each aimed at every address of the 18-address boundary set {x0000,x0001,x01FF,x0200,x2FFE,x2FFF|x3000,x3001,xFDFE,xFDFF|xFE00,xFE02,xFE04,xFE06,xFE10,xFFFC,xFFFE,xFFFF}; (2) every 16-bit word in every user-mode single-step context of the C08 grid; (3) history: the same 15 forms aimed at every supervisor-space address that the OS executed or accessed while serving a user-mode OUT / PUTS / GETC call made a moment earlier on the same simulator (non-initial states: anything the simulator remembers about an address from supervisor-mode use must not leak into user mode). Oracle: an independent attempt classifier computed from the pre-state (fetch address, effective addresses in ISA order, RTI): an attempt outside x3000-xFDFF must be reported (virtual) or vectored with supervisor PSR, R6 = SSP-2, saved user PSR (real), leave the target word, keyboard queue, display buffer and recording-device log unchanged and the observer inside user space apart from the vector entry and two stack slots; steps whose addresses are all inside must not report a violation. non-trivial = steps classified as attempts");
+    let r = sweep(ctx, 15 * 18 * 2 * 2, 4, |k, acc| {
+        let (strict, k) = (k >= 15 * 18 * 2, k % (15 * 18 * 2));
         let (form, ti, real) = (k / 36, k / 2 % 18, k % 2 == 1);
-        match run_targeted(form, ti, real) {
+        match run_targeted_s(form, ti, real, strict) {
             Ok(None) => {}
             Ok(Some(v)) => { acc.evals += 1; acc.transitions += 2; acc.count("targeted_cases", 1); if v { acc.nontrivial += 1; acc.count("targeted_attempts", 1); } acc.outcomes.insert(mix(form, v as u64)); }
-            Err((sig, d)) => { acc.evals += 1; acc.violation(sig, format!("t:{form}:{ti}:{}", real as u8), d); }
+            Err((sig, d)) => { acc.evals += 1; acc.violation(sig, format!("t:{form}:{ti}:{}:{}", real as u8, strict as u8), d); }
         }
         acc.sample(k, ctx.seed, 37, || targeted(form, ti, real).map(|x| x.2).unwrap_or_else(|| format!("form {form} target {ti} unreachable")));
     });
@@ -249,6 +256,6 @@ pub fn run(ctx: &Ctx) -> Report {
 pub fn replay(case: &str) -> Option<String> {
     let p: Vec<&str> = case.split(':').collect();
     let n = |i: usize| -> Option<u64> { p.get(i)?.parse().ok() };
-    let r = match *p.first()? { "t" => run_targeted(n(1)?, n(2)?, n(3)? == 1).map(|_| ()), "s" => run_sweep(n(1)?, n(2)? as u16).map(|_| ()), "h" => run_history(n(1)?, n(2)?, n(3)?, n(4)? == 1).map(|_| ()), _ => return None };
+    let r = match *p.first()? { "t" => run_targeted_s(n(1)?, n(2)?, n(3)? == 1, n(4).unwrap_or(0) == 1).map(|_| ()), "s" => run_sweep(n(1)?, n(2)? as u16).map(|_| ()), "h" => run_history(n(1)?, n(2)?, n(3)?, n(4)? == 1).map(|_| ()), _ => return None };
     r.err().map(|(s, d)| format!("[{s}] {d}"))
 }
